@@ -50,6 +50,19 @@ flow handling
 """
 
 
+# the dialog action's result is what the bot says (no LLM involved): a failed action leaves None there
+V2_MAIN_SAY_RESULT = """
+flow main
+  activate handling
+
+flow handling
+  global $user_message
+  user said something
+  $ans = await VerifLookupAction(q=$user_message)
+  bot say $ans
+"""
+
+
 def llm_fn_for(path, version):
     def fn(task, prompt, i):
         t = str(task)
@@ -74,7 +87,7 @@ _PATH = ["free"]
 def build(version, dialog, exceptions):
     ins, outs = RAILS[_RAILSET[0]]
     if version == "2.x":
-        return rw.v2_world(in_order=ins, out_order=outs, dialog=False, exceptions=exceptions, main=(V2_MAIN_RETRY if _PATH[0] == "retry" else V2_MAIN_LOOKUP))
+        return rw.v2_world(in_order=ins, out_order=outs, dialog=False, exceptions=exceptions, main={"retry": V2_MAIN_RETRY, "say-result": V2_MAIN_SAY_RESULT}.get(_PATH[0], V2_MAIN_LOOKUP))
     return rw.v1_world(in_order=ins, out_order=outs, dialog=dialog, exceptions=exceptions, param_rails=("both" if _RAILSET[0] == "param" else False))
 
 
@@ -443,6 +456,7 @@ def tasks(tier):
         out.append(("1.0", True, exc, "lookup", turns, pairs, kinds))
         out.append(("2.x", False, exc, "free", turns, pairs, kinds))
         out.append(("2.x", False, exc, "retry", turns, False, ("raise",)))
+        out.append(("2.x", False, exc, "say-result", turns, False, ("raise", "none")))
         # one shipped rail flow configured twice with different parameters (Colang 1.0)
         out.append(("1.0", False, exc, "general", turns, tier == "thorough", ("raise",), "param"))
         if tier == "thorough":
